@@ -322,6 +322,9 @@ def op_name(n: ast.AST) -> str:
 	return ''
 
 
+UNDERSTOOD = {'factor-on-bool', 'bitwise-bool-int', 'tuple-slice', 'list-literal-shared-union', 'template-union-first-member',
+	'dict-get-missing-key', 'list-literal-class-dedup'}
+
 GENERIC_OF_UNION = re.compile(r'(list|dict|tuple|Iterator|ItemsView|Pair)<[^<>]*(<[^<>]*>[^<>]*)*Union<')
 
 
